@@ -27,3 +27,18 @@ func init() {
 		c.Cov["explanation"] = "debug"
 	}})
 }
+
+func init() {
+	core.Register(&core.Check{ID: "dbg12", Level: "other", Run: func(c *core.Ctx) {
+		var b, a, bal int
+		fmt.Sscan(os.Getenv("DBG_CASE"), &b, &a, &bal)
+		cs := c12FragCase{Before: b, After: a, Balance: bal, R: 1}
+		fmt.Println("case:", cs)
+		fs := c12RunFrag(cs)
+		for _, f := range fs {
+			fmt.Println("  FAIL", f.Key, "::", f.What)
+		}
+		fmt.Println("done, fails:", len(fs))
+		c.Cov["explanation"] = "debug"
+	}})
+}
